@@ -25,6 +25,15 @@ every call every shared argument must still equal its pristine copy (values and 
 obtained earlier must not have changed, the harness scribbles on results it owns (a memoised /
 aliased result then shows up in a later call or in an argument), and a Stream / generator argument
 (rejected with TypeError: the functions need len()) must not have been consumed.
+
+Call layer (round 3).  A single-call case may carry "ord" = {"k": omitted | none | int | real, "v", "py": bool |
+float | frac} (the spelling of order / max_lag; the Lean side is `OrdArg` of Model/C10Call.lean), "kw" (which
+arguments go by keyword), "seq" (container kind) and "num" in int / frac / float / bool / bigint / complex; entry
+"lpc" selects a strategy of the StrategyDict by name ("via": attr | item; name None = lpc(...) itself).  The
+driver answers with `levinsonCall` / `acorrCall` / `lagMatrixCall` / `kautocorCall` / `kcovarCall` / `lpcCall
+noNumpy`; complex samples go through the same polymorphic model instantiated at the Gaussian rationals.  A
+ZeroDivisionError of kcovar comes with the dependency witness of theorem `kcovar_zero_division_singular`
+(checked to annihilate the window).
 """
 import json, math
 from fractions import Fraction as F
@@ -33,8 +42,15 @@ from common import enc, dec, encl, decl, err_kind, close
 
 ID = "C10"
 RULE = ("lag vectors from reflection coefficients (dyadic: exact regime; tenths |k|<=9/10: float regime), "
-        "from autocorrelations of data blocks, singular (k=+-1) and random small vectors; blocks of ints / "
-        "Fractions / dyadic floats; orders 0..8, None, and >= len (zero extension); a case is non-trivial when "
+        "from autocorrelations of data blocks, singular (k=+-1), NEAR-singular (|k| = 1 - 2^-10 .. 1 - 2^-40, one or two "
+        "stages, as Fractions and as the nearest doubles, orders beyond the stage) and random small vectors; blocks of "
+        "ints / Fractions / dyadic floats / bools / huge ints (tables) / complex numbers (Gaussian integers; the model "
+        "runs on Gaussian rationals); orders 0..8, None, and >= len (zero extension); CALL LAYER: the order / max_lag "
+        "omitted, None, an int of any sign, a bool, a float or Fraction (integral / fractional, below / from len on), "
+        "passed positionally or by keyword (data by keyword too); containers list / tuple / deque / read-only sequence / "
+        "list subclass / Stream.take result / generator / Stream; every name of the StrategyDict lpc by attribute and by "
+        "item, names that do not exist, lpc(...) itself around its threshold order 100; small universe of function x data "
+        "x every spelling exhaustively; a case is non-trivial when "
         "the impl returns a filter of order >= 1 or a non-empty table, or raises the modelled exception; "
         "distinct = distinct JSON case; histories: 2-4 calls among acorr / lag_matrix / toeplitz / levinson_durbin "
         "(order below, equal to, above len(r); default) / lpc.kautocor / lpc.kcovar / lpc sharing one argument object "
@@ -45,30 +61,51 @@ TRUSTED = [
     "hand-written Lean model ALV/Model/C10.lean of lazy_lpc.toeplitz/levinson_durbin/lpc.kautocor/lpc.kcovar and "
     "lazy_analysis.acorr/lag_matrix (modelled, not verified: ZFilter/Poly arithmetic is taken as coefficient-wise "
     "arithmetic on numlists without trailing zeros; Stream.append/take for the zero extension)",
+    "hand-written Lean model ALV/Model/C10Call.lean of the call layer: the spellings of order / max_lag (omitted, None, "
+    "int of any sign, non-int number: which comparison / integer context raises what, Stream.take rounding a float and "
+    "handing a Fraction to islice), the StrategyDict names and the default strategy's dispatch on order < 100 / "
+    "ParCorError; the numpy strategies lpc.nautocor / lpc.covar (lazy_lpc.py 219-225, 285-294) are a PARAMETER of the "
+    "model, instantiated with 'numpy absent: ModuleNotFoundError' - their bodies are unreachable here and neither "
+    "modelled nor tied",
+    "which strategy a function object of the StrategyDict is: decided by the harness from the source order of the "
+    "distinct functions (co_firstlineno), trusted",
     "histories: the harness' own bookkeeping (pristine copies, value+type equality of the shared arguments after every "
     "call, re-observation of earlier results, scribbling on returned lists / tables / the error attribute) is trusted; "
     "lpc (default strategy) needs numpy below order 100 (absent here: only the no-side-effect clauses are checked)",
     "float regime: the impl's numbers are binary floats (Poly zero = 0.), compared with tolerance 1e-9*(1+|x|) against "
-    "the exact rational model; exact regime decided from the Lean trace (dyadic intermediates below 2^52)",
+    "the exact rational model; exact regime decided from the Lean trace (dyadic intermediates below 2^52); Levinson runs "
+    "(also near-singular ones) whose exact recursion meets no zero divisor must return and are compared under the "
+    "conditioning-aware bound 2*(order+2)*growth^2*2^-52/(smallest relative divisor) when it is <= 1e-2 (an empirical "
+    "bound, calibrated on 2400 runs with a factor 25 of slack, not a theorem); complex samples: float regime 1e-8",
 ]
 ASSUMPTIONS = [
-    "order is None or an int >= 0; lag vectors / blocks are finite lists of ints, Fractions or floats",
-    "theorems are over an arbitrary field (kautocor_minimises: ordered field); float rounding is outside them",
+    "order / max_lag is omitted, None, an int (bool) or a finite float / Fraction (inf: levinson_durbin does not "
+    "terminate, not generated); lag vectors / blocks are finite sequences of ints, bools, Fractions, floats or complex",
+    "theorems are over an arbitrary field (kautocor_minimises, kcovar_zero_division_singular: ordered field); float "
+    "rounding is outside them",
 ]
 MANIFEST = {
     "text": "Lean 4 theorems, for every field / every lag vector / every order (no bound): levinson_durbin as coded "
             "returns a monic solution of the Yule-Walker equations with error = sum_j a_j r_j, raises ParCorError "
             "exactly when an intermediate prediction error is zero, E_{p+1} = E_p - Delta^2/E_p, matrix form with "
-            "toeplitz; acorr / lag_matrix / toeplitz are the documented sums; lpc.kautocor's error is the energy of "
-            "a * zero-extended block and (ordered field) the filter minimises it; lpc.kcovar as coded (Gram-Schmidt "
-            "with its exits) returns a solution of the covariance normal equations whose error is the residual "
-            "energy over n >= p, and minimises it.  Tied to /repo by a differential run (exact-rational model vs "
-            "the float-contaminated impl, exact on dyadic inputs) that also evaluates the Lean spec on the "
-            "coefficients the impl returns.",
-    "note": "Trusted: Lean kernel + propext/Classical.choice/Quot.sound, the Python harness, the hand-written model "
-            "(ZFilter/Poly arithmetic taken as coefficient-wise arithmetic on trimmed coefficient lists).  Float "
-            "rounding is outside the theorems; float cases within 1e-4 of a zero divisor / of |k| = 1 are only "
-            "counted, not compared (histogram float_ill_conditioned_model_comparison_skipped).",
+            "toeplitz; acorr / lag_matrix / toeplitz are the documented sums; lpc.kautocor = levinson_durbin(acorr), its "
+            "error is the energy of a * zero-extended block and (ordered field) the filter minimises it; lpc.kcovar as "
+            "coded (Gram-Schmidt with its exits) returns a solution of the covariance normal equations whose error is "
+            "the residual energy over n >= p, and minimises it; it fails to return exactly through line 326 "
+            "(ZeroDivisionError iff a zero beta[m], which over an ordered field means a singular system: the delayed "
+            "copies of the block are linearly dependent on the window; conversely a singular system excludes a return, "
+            "any field), line 329 (ValueError) or the length checks - the unguarded divisions of line 337 never raise.  "
+            "Call layer: the documented defaults (order = len - 1, max_lag = len(blk) - 1) equal the explicit call, "
+            "every spelling of the order (negative int, bool, float, Fraction) has its modelled outcome, the "
+            "StrategyDict names and the default strategy's dispatch.  Tied to /repo by a differential run (exact-rational "
+            "/ Gaussian-rational model vs the float-contaminated impl, exact on dyadic inputs) that also evaluates the "
+            "Lean spec on the coefficients the impl returns.",
+    "note": "Trusted: Lean kernel + propext/Classical.choice/Quot.sound, the Python harness, the hand-written models "
+            "(ZFilter/Poly arithmetic taken as coefficient-wise arithmetic on trimmed coefficient lists; the call layer). "
+            "numpy is absent: lpc.nautocor / lpc.covar bodies are neither modelled nor run.  Float rounding is outside "
+            "the theorems; float Levinson runs are compared under a conditioning-aware empirical bound, those whose "
+            "bound exceeds 1e-2 (and kcovar runs within 1e-4 of an exit) are only counted "
+            "(histograms float_ill_conditioned_model_comparison_skipped, near_singular_*).",
     "technique": "Lean 4 machine-checked proof (loop invariants by induction on the order, Finset sums) over an "
                  "executable model + differential correspondence and spec evaluation on the implementation's output",
 }
@@ -270,6 +307,197 @@ def _exhaustive(tier):
     return out
 
 
+# ----------------------------------------------------------------------------------------
+# the call layer: spellings of order / max_lag, call shapes, containers, element kinds, lpc names
+# ----------------------------------------------------------------------------------------
+_ALIASES = ["autocor", "acorr", "autocorrelation", "auto_correlation",
+            "nautocor", "nacorr", "nautocorrelation", "nauto_correlation",
+            "kautocor", "kacorr", "kautocorrelation", "kauto_correlation",
+            "covar", "cov", "covariance", "ncovar", "ncov", "ncovariance",
+            "kcovar", "kcov", "kcovariance"]
+_BAD_NAMES = ["levinson", "kautocorr", "auto", "kcovarr", "k", "lpc"]
+_SHAPES = [{}, {"ord": True}, {"data": True}]
+_SEQS = ["list", "list", "tuple", "deque", "roseq", "userlist", "take"]
+
+
+def _ord_menu(n):
+    """every spelling of the second argument, relative to a length n"""
+    m = [{"k": "omitted"}, {"k": "none"}]
+    for v in sorted({-3, -1, 0, 1, 2, n - 1, n, n + 1}):
+        m.append({"k": "int", "v": v})
+    m += [{"k": "int", "v": 1, "py": "bool"}, {"k": "int", "v": 0, "py": "bool"},
+          {"k": "real", "v": 2, "py": "float"}, {"k": "real", "v": 1, "py": "frac"},
+          {"k": "real", "v": "3/2", "py": "float"}, {"k": "real", "v": "1/3", "py": "frac"},
+          {"k": "real", "v": n, "py": "float"}, {"k": "real", "v": n + 1, "py": "frac"},
+          {"k": "real", "v": -1, "py": "float"}]
+    return m
+
+
+def _call_exhaustive(tier):
+    """small universe, every member: function x small data x every spelling of the order (x call shape)"""
+    q = tier == "quick"
+    out = []
+    lagl = [[], [2], [4, 2, 1], [1, 1, 1], [0, 0]]
+    blks = [[], [3], [1, 2, 3, 1], [0, 0, 0], [1, 2, 0, 0], [0, 0, 1, 2], [2, 1, -1, 3, 1, -2]]
+    i = 0
+    for fn, datas in (("levinson", lagl), ("kautocor", blks), ("kcovar", blks), ("acorr", blks), ("lag_matrix", blks)):
+        fld = _FIELD.get(fn, "blk")
+        for d in datas:
+            for o in _ord_menu(len(d)):
+                for kw in ([_SHAPES[i % 3]] if q else _SHAPES):
+                    i += 1
+                    c = {"entry": fn, fld: list(d), "num": "int", "ord": dict(o)}
+                    if kw:
+                        c["kw"] = dict(kw)
+                    if fn == "levinson":
+                        c["fam"] = "call-exhaustive"
+                    out.append(c)
+    for d in lagl:
+        out.append({"entry": "toeplitz", "vect": list(d), "num": "int", "kw": {"data": True}})
+    # every name of the StrategyDict (attribute and item access), a few that are not names, the dict itself
+    for nm in _ALIASES + _BAD_NAMES + [None]:
+        for via in ("attr", "item"):
+            if nm is None and via == "item":
+                continue
+            fam = "k" if nm and nm.startswith("k") and nm not in _BAD_NAMES else "np"
+            for blk, o in ((([1, 2, 3, 1], {"k": "int", "v": 1}), ([1, 2, 3, 1], {"k": "omitted"})) if fam == "k" else
+                           (([1, 2, 3], {"k": "int", "v": 2}), ([0, 0], {"k": "int", "v": 100}))):
+                out.append({"entry": "lpc", "name": nm, "via": via, "blk": list(blk), "num": "int", "ord": dict(o)})
+    # the default strategy around its threshold, with every spelling
+    for o in ({"k": "omitted"}, {"k": "none"}, {"k": "int", "v": 99}, {"k": "int", "v": 100}, {"k": "int", "v": 101},
+              {"k": "int", "v": -1}, {"k": "real", "v": 100, "py": "float"}, {"k": "real", "v": "199/2", "py": "float"},
+              {"k": "real", "v": 7, "py": "frac"}, {"k": "int", "v": 1, "py": "bool"}):
+        for nm in (None, "autocor", "acorr"):
+            for blk in ([0, 0], [0, 0, 0]):
+                c = {"entry": "lpc", "name": nm, "via": "attr", "blk": list(blk), "num": "int", "ord": dict(o)}
+                if o["k"] != "omitted" and nm == "acorr":
+                    c["kw"] = {"ord": True}
+                out.append(c)
+    return out
+
+
+def _respell(rng, o, n):
+    """a random spelling of the order o (None or an int >= 0) of a base case"""
+    if o is None:
+        return {"k": rng.choice(["omitted", "omitted", "none"])}
+    u = rng.random()
+    if u < 0.60:
+        if o in (0, 1) and rng.random() < 0.4:
+            return {"k": "int", "v": o, "py": "bool"}
+        return {"k": "int", "v": o}
+    if u < 0.72:
+        return {"k": "int", "v": -rng.randint(1, 4)}
+    if u < 0.86:
+        return {"k": "real", "v": o, "py": rng.choice(["float", "frac"])}
+    return {"k": "real", "v": enc(F(2 * o + 1, 2)), "py": rng.choice(["float", "frac"])}
+
+
+def _call_cases(rng, n):
+    """random base cases (same data families as above) called in a random shape: spelling of the order,
+    positional / keyword, container kind, element kind"""
+    out = []
+    for _ in range(n):
+        fn = rng.choice(["levinson", "levinson", "kautocor", "kautocor", "kcovar", "kcovar", "acorr", "lag_matrix",
+                         "toeplitz", "lpc"])
+        if fn == "levinson":
+            c = _lev_cases(rng, 1)[0]
+        elif fn == "toeplitz":
+            kind = rng.choice(["int", "frac", "float"])
+            c = {"entry": "toeplitz", "vect": encl([F(x) for x in _blk(rng, rng.randint(0, 7), kind)]), "num": kind}
+        elif fn == "lpc":
+            c = _blk_cases(rng, 1, rng.choice(["kautocor", "kcovar"]))[0]
+            nm = rng.choice([a for a in _ALIASES if a.startswith("k")] * 3 + _ALIASES + _BAD_NAMES[:2] + [None])
+            if nm is None or not nm.startswith("k"):
+                c["blk"] = c["blk"][:6]
+            c = dict(c, entry="lpc", name=nm, via=rng.choice(["attr", "attr", "item"]) if nm else "attr")
+        else:
+            c = _blk_cases(rng, 1, fn)[0]
+        e = c["entry"]
+        fld = _FIELD.get(e, "blk")
+        ln = len(c[fld])
+        if e != "toeplitz":
+            okey = _PARAMS[e][1]
+            o = c.pop(okey, None)
+            c["ord"] = _respell(rng, o, ln)
+            if e == "lpc" and c["ord"]["k"] == "int" and c["ord"]["v"] > 9 and not str(c.get("name")).startswith("kc"):
+                c["ord"]["v"] = 9
+        c["seq"] = rng.choice(_SEQS) if rng.random() < 0.93 or e == "lpc" else rng.choice(["gen", "stream"])
+        kw = rng.choice(_SHAPES + [{"data": True, "ord": True}])
+        if kw:
+            c["kw"] = dict(kw)
+        # element kinds the data families above do not draw: bools, huge ints (tables only)
+        u = rng.random()
+        if u < 0.08 and c["num"] == "int":
+            c[fld] = [int(dec(x) != 0 and (i * 7 + ln) % 3 != 0) for i, x in enumerate(c[fld])]
+            c["num"] = "bool"
+        elif u < 0.16 and e in ("acorr", "lag_matrix", "toeplitz") and c["num"] == "int":
+            c[fld] = [int(dec(x)) * 10 ** rng.choice([17, 25, 40]) + rng.randint(-5, 5) for x in c[fld]]
+            c["num"] = "bigint"
+        out.append(c)
+    return out
+
+
+def _nearsing_cases(rng, n):
+    """NEAR-singular but non-singular lag vectors: an exact step-up from reflection coefficients with one
+    (sometimes two) |k| = 1 - 2^-e, e = 10..40, passed as Fractions and as floats, orders beyond that stage"""
+    out = []
+    for _ in range(n):
+        p = rng.randint(2, 6)
+        ks = [F(rng.choice([0, 1, -1, 2, -2, 3, -3]), 4) if rng.random() < 0.5 else F(rng.randint(-7, 7), 10)
+              for _ in range(p)]
+        j = rng.randrange(p - 1)
+        e1 = rng.choice([10, 12, 16, 20, 24, 28, 32, 36, 40])
+        ks[j] = rng.choice([1, -1]) * (1 - F(1, 2 ** e1))
+        if rng.random() < 0.25 and p >= 3:
+            j2 = rng.choice([i for i in range(p - 1) if i != j])
+            ks[j2] = rng.choice([1, -1]) * (1 - F(1, 2 ** rng.choice([10, 14, 20, 30])))
+        r = _stepup(ks, rng.choice([1, 2, 4, 3, 10]))
+        num = rng.choice(["frac", "float", "float"])
+        if num == "float":
+            r = [F(float(x)) for x in r]        # the doubles nearest to the exact lags: that IS the input
+        mode = rng.choice(["full", "full", "none", "extend", "tail"])
+        order = len(r) - 1
+        if mode == "none":
+            order = None
+        elif mode == "extend":
+            order = len(r) + rng.randint(0, 1)
+        elif mode == "tail":
+            r = r + [F(rng.randint(-4, 4), 4)]
+        out.append({"entry": "levinson", "r": encl(r), "order": order, "num": num, "fam": "nearsing",
+                    "seq": rng.choice(["list", "tuple"])})
+    return out
+
+
+def _gz(rng, big=False):
+    return [rng.randint(8, 16) if big else rng.randint(-2, 2), rng.randint(-2, 2)]
+
+
+def _complex_cases(rng, n):
+    """complex samples / lags (Gaussian integers and halves; the model runs on Gaussian rationals)"""
+    out = []
+    for _ in range(n):
+        fn = rng.choice(["levinson", "levinson", "kautocor", "kcovar", "acorr", "lag_matrix", "toeplitz"])
+        if fn == "levinson":
+            p = rng.randint(0, 4)
+            r = [_gz(rng, True)] + [_gz(rng) for _ in range(p)]
+            if rng.random() < 0.1:
+                r[0] = [0, 0]
+            c = {"entry": "levinson", "r": r, "num": "complex", "fam": "complex",
+                 "ord": _respell(rng, rng.choice([None, p, p, max(p - 1, 0), p + 1]), len(r))}
+        elif fn == "toeplitz":
+            c = {"entry": "toeplitz", "vect": [_gz(rng) for _ in range(rng.randint(0, 5))], "num": "complex"}
+        else:
+            ln = rng.randint(0, 7)
+            b = [_gz(rng) for _ in range(ln)]
+            if rng.random() < 0.3:
+                b = [[x[0], 0] if i % 2 else [3 + x[0], x[1]] for i, x in enumerate(b)]
+            c = {"entry": fn, "blk": b, "num": "complex",
+                 "ord": _respell(rng, rng.choice([None, 1, 2, 3, max(ln - 1, 0), ln]), ln)}
+        c["seq"] = rng.choice(["list", "tuple", "deque"])
+        out.append(c)
+    return out
+
+
 def generate(rng, tier, scale=1):
     q = tier == "quick"
     n_lev = (700 if q else 20000) * scale
@@ -287,6 +515,11 @@ def generate(rng, tier, scale=1):
         cases.append({"entry": "toeplitz", "vect": encl([F(x) for x in _blk(rng, rng.randint(0, 9), kind)]),
                       "num": kind})
     if scale == 1:
+        cases += _call_exhaustive(tier)
+    cases += _call_cases(rng, (450 if q else 12000) * scale)
+    cases += _nearsing_cases(rng, (120 if q else 4000) * scale)
+    cases += _complex_cases(rng, (150 if q else 4000) * scale)
+    if scale == 1:
         cases += _hist_exhaustive(tier)
     cases += _hist_cases(rng, (500 if q else 12000) * scale, (2 if q else 12) if scale == 1 else 0)
     return cases
@@ -295,46 +528,158 @@ def generate(rng, tier, scale=1):
 # ----------------------------------------------------------------------------------------
 # impl
 # ----------------------------------------------------------------------------------------
+def _dz(j):
+    """JSON number -> Fraction, or a complex pair [re, im] -> (Fraction, Fraction)"""
+    if isinstance(j, list):
+        return (dec(j[0]), dec(j[1]))
+    return dec(j)
+
+
 def _vals(js, num):
+    if num == "complex":      # Gaussian rationals [re, im] with float-exact parts
+        return [complex(float(dec(x[0])), float(dec(x[1]))) if isinstance(x, list) else complex(float(dec(x)), 0.0)
+                for x in js]
     xs = decl(js)
-    if num == "int":
+    if num in ("int", "bigint"):
         return [int(x) for x in xs]
+    if num == "bool":
+        return [bool(x) for x in xs]
     if num == "float":
         return [float(x) for x in xs]
     return xs
 
 
 def _finite(x):
+    if isinstance(x, complex):
+        return _finite(x.real) and _finite(x.imag)
     return not (isinstance(x, float) and (x != x or x in (float("inf"), float("-inf"))))
+
+
+def _enc(x):
+    """like common.enc, a complex number as the pair [re, im]"""
+    if isinstance(x, complex):
+        return [enc(x.real), enc(x.imag)]
+    return enc(x)
+
+
+def _encl(xs):
+    return [_enc(x) for x in xs]
 
 
 def _filt_obs(c, f):
     a = list(f.numerator)
-    obs = {"a": encl(a), "error": enc(f.error), "den": encl(list(f.denominator))}
+    obs = {"a": _encl(a), "error": _enc(f.error), "den": _encl(list(f.denominator))}
     if all(_finite(x) for x in a):
         _IMPL[key(c)] = obs["a"]
     return obs
 
 
+class _UserList(list):
+    """a user subclass of list"""
+
+
+def _container(kind, vals):
+    """the object handed to the function: list / tuple / deque / read-only sequence / list subclass /
+    what Stream.take returns / (unsupported: no len()) a generator, a Stream"""
+    if kind in (None, "list"):
+        return list(vals)
+    if kind == "userlist":
+        return _UserList(vals)
+    if kind == "take":
+        from audiolazy import Stream
+        return Stream(list(vals)).take(len(vals))
+    return _mk(kind, vals)
+
+
+_PARAMS = {"levinson": ("acdata", "order"), "kautocor": ("blk", "order"), "kcovar": ("blk", "order"),
+           "lpc": ("blk", "order"), "acorr": ("blk", "max_lag"), "lag_matrix": ("blk", "max_lag"),
+           "toeplitz": ("vect", None)}
+_STRATS = ("autocor", "nautocor", "kautocor", "covar", "kcovar")     # source order of the decorators
+
+
+def _py_order(c):
+    """(given?, python value) of the order / max_lag argument of a single-call case.  Without "ord":
+    the legacy fields (None = omitted, else a non-negative int).  With "ord" = {"k": omitted | none |
+    int | real, "v": value, "py": bool | float | frac}: the spelling."""
+    o = c.get("ord")
+    if o is None:
+        v = c.get(_PARAMS[c["entry"]][1])
+        return v is not None, v
+    k = o["k"]
+    if k == "omitted":
+        return False, None
+    if k == "none":
+        return True, None
+    if k == "int":
+        v = int(o["v"])
+        return True, (bool(v) if o.get("py") == "bool" else v)
+    q = dec(o["v"])
+    return True, (q if o.get("py") == "frac" else float(q))
+
+
+def _invoke(fn, c, arg):
+    """positional / keyword / omitted, as the case says ("kw": {"data": bool, "ord": bool})"""
+    pname, oname = _PARAMS[c["entry"]]
+    kw = c.get("kw") or {}
+    args, kwargs = [], {}
+    if kw.get("data"):
+        kwargs[pname] = arg
+    else:
+        args.append(arg)
+    if oname is not None:
+        given, v = _py_order(c)
+        if given:
+            if kw.get("ord") or kw.get("data"):
+                kwargs[oname] = v
+            else:
+                args.append(v)
+    return fn(*args, **kwargs)
+
+
+def _strategy_of(lpc, fn):
+    """which strategy a function of the StrategyDict is: the distinct functions in source order"""
+    fns = []
+    for f in lpc.values():
+        if all(f is not g for g in fns):
+            fns.append(f)
+    fns.sort(key=lambda f: f.__code__.co_firstlineno)
+    for nm, f in zip(_STRATS, fns):
+        if f is fn:
+            return nm
+    return "?"
+
+
 def _impl_single(c, arg):
     from audiolazy import levinson_durbin, lpc, acorr, lag_matrix, toeplitz
     e = c["entry"]
+    extra = {}
     try:
+        if e == "lpc":
+            name, via = c.get("name"), c.get("via", "attr")
+            try:
+                if name is None:
+                    fn, target = lpc, lpc.default
+                else:
+                    fn = lpc[name] if via == "item" else getattr(lpc, name)
+                    target = fn
+            except (KeyError, AttributeError):
+                return {"strategy": None}
+            extra["strategy"] = _strategy_of(lpc, target)
+            return dict(_filt_obs(c, _invoke(fn, c, arg)), **extra)
         if e == "levinson":
-            return _filt_obs(c, levinson_durbin(arg, c["order"]) if c["order"] is not None else levinson_durbin(arg))
+            return _filt_obs(c, _invoke(levinson_durbin, c, arg))
         if e == "kautocor":
-            return _filt_obs(c, lpc.kautocor(arg, c["order"]) if c["order"] is not None else lpc.kautocor(arg))
+            return _filt_obs(c, _invoke(lpc.kautocor, c, arg))
         if e == "kcovar":
-            return _filt_obs(c, lpc.kcovar(arg, c["order"]) if c["order"] is not None else lpc.kcovar(arg))
+            return _filt_obs(c, _invoke(lpc.kcovar, c, arg))
         if e == "acorr":
-            return {"out": encl(acorr(arg, c["max_lag"]) if c["max_lag"] is not None else acorr(arg))}
+            return {"out": _encl(_invoke(acorr, c, arg))}
         if e == "lag_matrix":
-            t = lag_matrix(arg, c["max_lag"]) if c["max_lag"] is not None else lag_matrix(arg)
-            return {"out": [encl(row) for row in t]}
+            return {"out": [_encl(row) for row in _invoke(lag_matrix, c, arg)]}
         if e == "toeplitz":
-            return {"out": [encl(row) for row in toeplitz(arg)]}
+            return {"out": [_encl(row) for row in _invoke(toeplitz, c, arg)]}
     except Exception as ex:
-        return {"err": err_kind(ex)}
+        return dict({"err": err_kind(ex)}, **extra)
     raise ValueError("unknown entry " + e)
 
 
@@ -344,9 +689,16 @@ def impl(c):
         return _impl_history(c)
     _IMPL.pop(key(c), None)
     vals = _vals(c[_FIELD.get(e, "blk")], c["num"])
-    arg = tuple(vals) if c.get("seq") == "tuple" else list(vals)
+    kind = c.get("seq")
+    arg = _container(kind, vals)
     obs = _impl_single(c, arg)
-    if not _same(arg, vals):     # a call must leave its argument as the caller gave it
+    if kind in ("gen", "stream"):
+        # no len(): the functions must refuse (TypeError) without consuming anything
+        obs["unsupported"] = kind
+        rest = list(arg)
+        if not _same(rest, vals):
+            obs["consumed"] = _show(rest)
+    elif not _same(arg, vals):     # a call must leave its argument as the caller gave it
         obs["arg_modified"] = _show(arg)
     return obs
 
@@ -357,7 +709,11 @@ _FIELD = {"levinson": "r", "toeplitz": "vect"}
 def request(c):
     if c["entry"] == "history":
         return {"entry": "history", "calls": [r for r in _HIST.get(key(c), []) if r is not None]}
-    r = {k: v for k, v in c.items() if k not in ("num", "fam", "seq")}
+    r = {k: v for k, v in c.items() if k not in ("num", "fam", "seq", "kw", "via")}
+    if isinstance(r.get("ord"), dict):
+        r["ord"] = {k: v for k, v in r["ord"].items() if k != "py" or r["ord"]["k"] == "real"}
+    if c.get("num") == "complex":
+        r["elem"] = "gauss"
     a = _IMPL.get(key(c))
     if a is not None:
         r["impl_a"] = a
@@ -414,6 +770,20 @@ def _conditioning(drv, scale):
     return worst
 
 
+def _cond_tol(drv, order, cond):
+    """conditioning-aware tolerance of a float run of the Levinson recursion (see _cmp_filter)"""
+    g = 1.0
+    for it in drv.get("trace", []):
+        g = max(g, float(sum(abs(x) for x in decl(it["A"]))))
+        d = dec(it["den"])
+        if d != 0:
+            g = max(g, float(abs(dec(it["num"]) / d)))
+    # calibrated on 2400 near-singular runs of the unchanged code: the largest observed error is
+    # 0.32 * g^2 * 2^-52 / cond (orders <= 8); the bound keeps a factor >= 25 above that
+    n = (order or 0) + 2
+    return 2.0 * n * g * g * 2.0 ** -52 / cond
+
+
 def _pad(xs, n):
     return list(xs) + [F(0)] * (n - len(xs))
 
@@ -429,7 +799,27 @@ def _cmp_filter(c, io, drv, inputs, order, scale, spec_of):
     info = {"regime": "exact" if exact else "float", "skipped": False, "passes": len(drv.get("trace", []))}
     tol = 0 if exact else TOL
     safe = exact or cond >= 1e-4
-
+    if not exact and e in ("levinson", "kautocor") and "err" not in model and cond > 0:
+        # float regime, the exact recursion meets no zero divisor ("every autocorrelation sequence on
+        # which the recursion does not divide by zero", also NEAR-singular ones): the recursion must go on
+        # to the requested order, and the float result is compared under a conditioning-aware bound:
+        # rounding errors of relative size 2^-52 are amplified by at most ~ (order+2) * growth^2 /
+        # (smallest relative divisor), growth = largest sum |A_i| / largest |k| met
+        tolc = _cond_tol(drv, order, cond)
+        if cond < 1e-4:
+            info["near_singular"] = "1e%d" % math.floor(math.log10(cond))
+        if tolc <= 1e-2:
+            tol = max(TOL, tolc)
+            safe = True
+            if cond < 1e-4 or tolc > TOL:
+                info["cond_tol"] = "1e%d" % math.ceil(math.log10(tol))
+        else:
+            safe = False
+            info["cond_tol"] = "not compared (bound > 1e-2)"
+            if tolc <= 0.5:
+                # too ill-conditioned for a comparison of values, but the divisors keep their sign and at
+                # least one digit: the float recursion cannot meet a zero divisor either, it must go on
+                info["goes_on"] = tolc
     if "err" in io and io["err"].startswith("UNMAPPED"):
         return [("model", e + ": unmapped impl exception " + io["err"])], info
 
@@ -442,6 +832,20 @@ def _cmp_filter(c, io, drv, inputs, order, scale, spec_of):
         # unless both sides agree anyway.
         if model.get("err") != io.get("err") or "err" not in model:
             info["skipped"] = True
+        if info.get("goes_on") is not None:
+            if "err" in io:
+                out.append(("spec", "%s: impl raises %s although the exact recursion meets no zero divisor "
+                                    "(smallest relative divisor %.3g, float error bound %.2g)" %
+                            (e, io["err"], cond, info["goes_on"])))
+                out.append(("model", "%s: impl raises %s, model returns a filter" % (e, io["err"])))
+            else:
+                ia, ma = decl(io["a"]), decl(model["a"])
+                top = max(abs(x) for x in ma)
+                if len(ia) < len(ma) and abs(ma[-1]) > 4 * info["goes_on"] * (1 + top):
+                    out.append(("spec", "%s: the recursion stopped short of the requested order: %d coefficients, the "
+                                        "exact solution has %d (last one %.6g)" % (e, len(ia), len(ma), float(ma[-1]))))
+                    out.append(("model", "%s: coefficient count differs" % e))
+            info["goes_on"] = True
         return out, info
 
     # --- impl <-> model -------------------------------------------------------------
@@ -552,12 +956,106 @@ def compare(c, io, drv):
     return out
 
 
+def _cz(x):
+    return (dec(x[0]), dec(x[1])) if isinstance(x, list) else (dec(x), F(0))
+
+
+def _canon_out(e, out):
+    """complex samples: every cell as the pair (re, im)"""
+    if e == "acorr":
+        return [_cz(x) for x in out]
+    return [[_cz(x) for x in row] for row in out]
+
+
+def _order_of(c, n):
+    """the order the call works with (Lean `callOrder`): the int given (negative: 0), len - 1 by default"""
+    o = c.get("ord")
+    if o is None:
+        v = c.get(_PARAMS[c["entry"]][1])
+        return v if v is not None else n - 1
+    if o["k"] in ("omitted", "none"):
+        return n - 1
+    if o["k"] == "int":
+        return max(int(o["v"]), 0)
+    return 0
+
+
+def _ord_tag(c, n):
+    """histogram bucket of the order spelling, relative to the length n"""
+    o = c.get("ord")
+    if o is None:
+        v = c.get(_PARAMS[c["entry"]][1])
+        o = {"k": "omitted"} if v is None else {"k": "int", "v": v}
+    k = o["k"]
+    if k in ("omitted", "none"):
+        return k
+    if k == "int":
+        v = int(o["v"])
+        rel = "negative" if v < 0 else "0" if v == 0 else "<len-1" if v < n - 1 else "=len-1" if v == n - 1 else \
+              "=len" if v == n else ">len"
+        return "%s %s" % (o.get("py", "int"), rel)
+    q = dec(o["v"])
+    return "%s %s%s" % (o.get("py", "float"), "integral" if q.denominator == 1 else "fractional",
+                        " >=len" if q >= n else " <len")
+
+
 def _compare_single(c, io, drv):
     e = c["entry"]
     k = key(c)
+    o_ = c.get("ord") or {}
+    if io.get("unsupported") and e in ("acorr", "kautocor") and o_.get("k") == "int" and int(o_["v"]) < 0:
+        # `xrange(max_lag + 1)` is empty: acorr never asks for len(blk), the block is not looked at
+        io = {kk: v for kk, v in io.items() if kk != "unsupported"}
+        if "consumed" in io:
+            return [("spec", "%s consumed its %s argument: %s left" % (e, c.get("seq"), io["consumed"]))]
+    if io.get("unsupported"):
+        # a generator / Stream has no len(): every function must refuse with TypeError, consuming nothing
+        _INFO[k] = {"regime": "exact", "skipped": False}
+        out = []
+        if io.get("err") != "TypeError":
+            out.append(("spec", "%s accepted a %s argument (no len()): %s" % (e, io["unsupported"], _brief(io)
+                        if "a" in io or "err" in io else "returns")))
+        if "consumed" in io:
+            out.append(("spec", "%s raised on a %s argument but consumed it: %s left" %
+                        (e, io["unsupported"], io["consumed"])))
+        return out
+    if e == "lpc":
+        # the StrategyDict: which strategy the name selects, then that strategy's call
+        want = drv.get("strategy")
+        if io.get("strategy") != want:
+            _INFO[k] = {"regime": "exact", "skipped": False}
+            d = "lpc: name %r (%s) selects strategy %s, the decorators say %s" % (
+                c.get("name"), c.get("via", "call"), io.get("strategy"), want)
+            return [("model", d), ("spec", d)]
+        if want is None:
+            _INFO[k] = {"regime": "exact", "skipped": False}
+            return []
+        m = drv["model"]
+        if isinstance(m, dict) and m.get("err") == "ModuleNotFoundError":
+            _INFO[k] = {"regime": "exact", "skipped": False, "numpy": True}
+            if io.get("err") not in _NO_NUMPY:
+                d = "lpc.%s: the numpy strategy is expected (numpy absent: ModuleNotFoundError), impl gives %s" % (
+                    want, _brief(io))
+                return [("model", d), ("spec", d)]
+            return []
+        sub = dict(c, entry="kcovar" if want == "kcovar" else "kautocor")
+        out = _compare_single(sub, {kk: v for kk, v in io.items() if kk != "strategy"}, drv)
+        _INFO[k] = _INFO.get(key(sub), {})
+        return out
+    if c.get("num") == "complex" and e in ("levinson", "kautocor", "kcovar"):
+        out, info = _cmp_gauss(c, io, drv)
+        _INFO[k] = info
+        return out
     if e in ("acorr", "lag_matrix", "toeplitz"):
         _INFO[k] = {"regime": "exact", "skipped": False}
         model = drv["model"]
+        if c.get("num") == "complex" and not (isinstance(model, dict) and "err" in model) and "err" not in io:
+            out = []
+            if _canon_out(e, io["out"]) != _canon_out(e, model):
+                out.append(("model", "%s differs from model: impl=%s model=%s" % (e, io["out"], model)))
+            if _canon_out(e, io["out"]) != _canon_out(e, drv["spec"]):
+                out.append(("spec", "%s differs from the documented sums: impl=%s spec=%s" % (e, io["out"], drv["spec"])))
+            return out
         if isinstance(model, dict) and "err" in model:
             if io.get("err") != model["err"]:
                 return [("model", "%s: model raises %s, impl %s" % (e, model["err"], io.get("err", "returns"))),
@@ -573,22 +1071,94 @@ def _compare_single(c, io, drv):
         return out
     if e == "levinson":
         r = decl(c["r"])
-        order = c["order"] if c["order"] is not None else len(r) - 1
+        order = _order_of(c, len(r))
         rs = max([abs(x) for x in r] + [F(0)])
         out, info = _cmp_filter(c, io, drv, r, order, abs(r[0]) if r else F(0), _yw_spec(e, order, rs))
     elif e == "kautocor":
         b = decl(c["blk"])
         r = decl(drv["r"])
-        order = c["order"] if c["order"] is not None else len(b) - 1
+        order = _order_of(c, len(b))
         rs = max([abs(x) for x in r] + [F(0)])
         out, info = _cmp_filter(c, io, drv, b + r, order, abs(r[0]) if r else F(0), _yw_spec(e, order, rs))
     else:
         b = decl(c["blk"])
-        order = c["order"] if c["order"] is not None else len(b) - 1
+        order = _order_of(c, len(b))
         sc = sum(x * x for x in b)
         out, info = _cmp_filter(c, io, drv, b + [sc], order, sc, _cov_spec(e, order, sc))
+        m = drv["model"]
+        if isinstance(m, dict) and m.get("err") == "ZeroDivisionError":
+            # theorem kcovar_zero_division_singular on this input: the B_m with beta[m] = 0 is a non-zero
+            # combination of the delays that annihilates the block on the whole window
+            dep = drv.get("dep")
+            info["singular_witness"] = True
+            if not dep or any(dec(x) != 0 for x in dep["window"]) or all(dec(x) == 0 for x in dep["b"]):
+                out.append(("model", "MODEL: ZeroDivisionError without a dependency of the delayed copies "
+                                     "(theorem reading wrong?): %s" % (dep,)))
     _INFO[k] = info
     return out
+
+
+def _cabs(z):
+    return math.hypot(float(z[0]), float(z[1]))
+
+
+def _cmp_gauss(c, io, drv):
+    """complex samples (Gaussian rationals in the model, Python complex in the impl): float regime,
+    tolerance 1e-9 on both parts; well-conditioned cases only are generated, the trace decides"""
+    e = c["entry"]
+    out = []
+    info = {"regime": "float", "skipped": False, "passes": len(drv.get("trace", []))}
+    model = drv["model"]
+    if "err" in io and io["err"].startswith("UNMAPPED"):
+        return [("model", e + ": unmapped impl exception " + io["err"])], info
+    lags = c["r"] if e == "levinson" else (drv.get("r") or [])
+    sc = _cabs(_cz(lags[0])) if lags else 0.0
+    cond = 1.0
+    if e != "kcovar":
+        for it in drv.get("trace", []):
+            d = _cabs(_cz(it["den"]))
+            cond = min(cond, d / sc if sc else 0.0)
+    structural = "err" in model and not drv.get("trace")
+    if cond < 1e-4 and not structural and e != "kcovar":
+        info["skipped"] = True
+        return out, info
+    if "err" in model:
+        if io.get("err") != model["err"]:
+            d = "%s (complex): model raises %s, impl gives %s" % (e, model["err"], io.get("err", "a filter"))
+            out += [("model", d), ("spec", d)]
+        return out, info
+    if "err" in io:
+        d = "%s (complex): impl raises %s, model returns a filter" % (e, io["err"])
+        return [("model", d), ("spec", d)], info
+    ia, ma = [_cz(x) for x in io["a"]], [_cz(x) for x in model["a"]]
+    ie, me = _cz(io["error"]), _cz(model["error"])
+    n = max(len(ia), len(ma))
+    ia += [(F(0), F(0))] * (n - len(ia))
+    ma += [(F(0), F(0))] * (n - len(ma))
+    scale = max([1.0] + [_cabs(x) for x in ma])
+
+    def near(u, v, sc):
+        return abs(float(u[0] - v[0])) <= TOL * sc * 10 and abs(float(u[1] - v[1])) <= TOL * sc * 10
+    if not all(near(u, v, scale) for u, v in zip(ia, ma)):
+        out.append(("model", "%s (complex): coefficients differ: impl=%s model=%s" % (e, io["a"], model["a"])))
+    esc = max(1.0, _cabs(me)) * scale * scale
+    if not near(ie, me, esc):
+        out.append(("model", "%s (complex): error differs: impl=%s model=%s" % (e, io["error"], model["error"])))
+    sp = drv.get("spec_impl")
+    if sp is not None:
+        yw = sp["yw"] if "yw" in sp else sp
+        rs = max([1.0] + [_cabs(_cz(x)) for x in (drv.get("r") or c.get("r") or [])]) * scale * n
+        if _cz(yw["a0"]) != (F(1), F(0)):
+            out.append(("spec", "%s (complex): a[0] is not 1" % e))
+        for i, x in enumerate(yw["res"], 1):
+            if not near(_cz(x), (F(0), F(0)), rs):
+                out.append(("spec", "%s (complex): normal equation %d has residual %s" % (e, i, x)))
+                break
+        if not near(ie, _cz(yw["err_eq"]), rs):
+            out.append(("spec", "%s (complex): error attribute %s but sum_j a_j r_j = %s" % (e, io["error"], yw["err_eq"])))
+        if "energy" in sp and not near(ie, _cz(sp["energy"]), rs):
+            out.append(("spec", "%s (complex): error attribute %s but energy of a*block = %s" % (e, io["error"], sp["energy"])))
+    return out, info
 
 
 # ----------------------------------------------------------------------------------------
@@ -599,7 +1169,9 @@ def nontrivial(c, io):
         ran = [(s, o) for s, o in zip(io.get("subs", []), io.get("calls", [])) if s is not None]
         return len(ran) >= 2 and any(nontrivial(s, o) for s, o in ran)
     if "err" in io:
-        return io["err"] in ("ParCorError", "ZeroDivisionError", "ValueError", "IndexError")
+        return io["err"] in ("ParCorError", "ZeroDivisionError", "ValueError", "IndexError", "TypeError") + _NO_NUMPY
+    if c["entry"] == "lpc" and io.get("strategy") is None:
+        return True
     if "a" in io:
         return len(io["a"]) >= 2
     return bool(io.get("out"))
@@ -614,30 +1186,65 @@ def tally(eng, c, io):
     eng.count("regime", "%s:%s" % (e, info.get("regime", "?")))
     if info.get("skipped"):
         eng.count("float_ill_conditioned_model_comparison_skipped", e)
+    if info.get("near_singular"):
+        eng.count("near_singular_smallest_relative_divisor", "%s:%s" % (e, info["near_singular"]))
+        eng.count("near_singular_compared_with_tolerance", "%s:%s" % (e, info.get("cond_tol", "not compared (bound > 1e-2)")))
+    if info.get("goes_on"):
+        eng.count("near_singular_not_compared_but_must_return", e)
+    if info.get("cond_tol") and not info.get("near_singular"):
+        eng.count("high_growth_compared_with_tolerance", "%s:%s" % (e, info["cond_tol"]))
+        eng.count("near_singular_impl_outcome", "%s:%s" % (e, io.get("err", "returns (goes on to the order)")))
+    if info.get("singular_witness"):
+        eng.count("kcovar_zero_division_dependency_witness_checked", e)
     eng.count("impl_outcome", "%s:%s" % (e, io.get("err", "returns")))
     eng.count("number_type", c.get("num"))
+    xs = c.get(_FIELD.get(e, "blk"), [])
+    n = len(xs)
+    # call shape / spelling / container dimensions
+    kw = c.get("kw") or {}
+    if e != "toeplitz":
+        given = _py_order(c)[0]
+        eng.count("call_shape", "%s: data %s, order %s" % (
+            e, "keyword" if kw.get("data") else "positional",
+            "omitted" if not given else "keyword" if (kw.get("ord") or kw.get("data")) else "positional"))
+        eng.count("order_spelling", "%s: %s" % (e, _ord_tag(c, n)))
+    else:
+        eng.count("call_shape", "toeplitz: data %s" % ("keyword" if kw.get("data") else "positional"))
+    eng.count("container", c.get("seq") or "list")
+    if xs and c.get("num") != "complex":
+        z = [dec(x) == 0 for x in xs]
+        if all(z):
+            eng.count("zeros_in_data", "%s: all zero" % e)
+        else:
+            if z[0]:
+                eng.count("zeros_in_data", "%s: leading zeros" % e)
+            if z[-1]:
+                eng.count("zeros_in_data", "%s: trailing zeros" % e)
+    if e == "lpc":
+        eng.count("lpc_lookup", "%s -> %s" % ("lpc(...)" if c.get("name") is None else
+                  ("lpc[%r]" if c.get("via") == "item" else "lpc.%s") % c["name"], io.get("strategy")))
+        if info.get("numpy"):
+            eng.count("lpc_numpy_strategy_reached", "%s order %s" % (io.get("strategy"), _ord_tag(c, n)))
+        return
+    o = None if _ord_tag(c, n) in ("omitted", "none") else _order_of(c, n)
     if e == "levinson":
         eng.count("lev_family", c.get("fam"))
-        n = len(c["r"])
-        o = c["order"]
         eng.count("lev_order", "None" if o is None else min(o, 10))
         eng.count("lev_order_vs_len", "None" if o is None else ("order<len-1" if o < n - 1 else
                   "order=len-1" if o == n - 1 else "order>=len (zero ext)"))
         if "a" in io:
             eng.count("lev_returned_len_vs_order", "trimmed" if o is not None and len(io["a"]) < o + 1 else "full")
-        elif info.get("passes"):
+        elif info.get("passes") and "err" in io:
             eng.count("lev_exit", "%s at pass %d" % (io["err"], min(info["passes"], 9)))
     elif e in ("kautocor", "kcovar"):
-        o = c["order"]
-        n = len(c["blk"])
         eng.count(e + "_order", "None" if o is None else min(o, 10))
         eng.count(e + "_order_vs_len", "None" if o is None else ("order<len" if o < n else "order>=len"))
         eng.count(e + "_blklen", min(n // 4 * 4, 28))
         if "err" in io:
-            where = "structural (lengths)" if not info.get("passes") else "pass %d" % min(info["passes"], 7)
+            where = "structural (lengths / spelling)" if not info.get("passes") else "pass %d" % min(info["passes"], 7)
             eng.count(e + "_exit", "%s at %s" % (io["err"], where))
     else:
-        eng.count(e + "_size", min(len(c.get("blk", c.get("vect", []))), 16))
+        eng.count(e + "_size", min(n, 16))
 
 
 def _simplify(xs):
@@ -659,7 +1266,7 @@ def shrink(c):
         return
     fld = {"levinson": "r", "toeplitz": "vect"}.get(e, "blk")
     xs = c[fld]
-    okey = "order" if e in ("levinson", "kautocor", "kcovar") else ("max_lag" if e != "toeplitz" else None)
+    okey = "order" if e in ("levinson", "kautocor", "kcovar", "lpc") else ("max_lag" if e != "toeplitz" else None)
     if xs:
         yield dict(c, **{fld: xs[:-1]})
         yield dict(c, **{fld: xs[1:]})
@@ -671,15 +1278,34 @@ def shrink(c):
                 yield dict(c, **{okey: o - 1, fld: xs[:-1]})
     if okey and c.get(okey) is None and xs:
         yield dict(c, **{okey: len(xs) - 1})
-    for ys in _simplify(xs):
+    for ys in (_simplify(xs) if c.get("num") != "complex" else []):
         d = dict(c, **{fld: ys})
-        if c.get("num") == "int" and any(dec(y).denominator != 1 for y in ys):
+        if c.get("num") in ("int", "bool", "bigint") and any(dec(y).denominator != 1 for y in ys):
             continue
         yield d
-    if c.get("num") != "frac" and all(dec(x).denominator == 1 for x in xs) and c.get("num") != "int":
+    if c.get("num") in ("float",) and all(dec(x).denominator == 1 for x in xs):
         yield dict(c, num="int")
-    if c.get("seq") == "tuple":
+    if c.get("seq") not in (None, "list"):
         yield dict(c, seq="list")
+    if c.get("kw"):
+        yield {k: v for k, v in c.items() if k != "kw"}
+    if c.get("ord") is not None and e != "lpc":
+        o = c["ord"]
+        d = {k: v for k, v in c.items() if k != "ord"}
+        if o["k"] in ("omitted", "none"):
+            yield dict(d, **{okey: None})
+            if o["k"] == "none":
+                yield dict(c, ord={"k": "omitted"})
+        elif o["k"] == "int" and int(o["v"]) >= 0:
+            yield dict(d, **{okey: int(o["v"])})
+        elif o["k"] == "int":
+            yield dict(c, ord={"k": "int", "v": -1})
+        else:
+            yield dict(c, ord=dict(o, v=1))
+    if e == "lpc" and c.get("via") == "item":
+        yield dict(c, via="attr")
+    if c.get("num") == "bool":
+        yield dict(c, num="int")
 
 
 def neighbours(c):
@@ -689,7 +1315,7 @@ def neighbours(c):
         return
     fld = {"levinson": "r", "toeplitz": "vect"}.get(e, "blk")
     xs = c[fld]
-    okey = "order" if e in ("levinson", "kautocor", "kcovar") else ("max_lag" if e != "toeplitz" else None)
+    okey = "order" if e in ("levinson", "kautocor", "kcovar", "lpc") else ("max_lag" if e != "toeplitz" else None)
     if okey:
         o = c.get(okey)
         for d in (-1, 1, 2):
@@ -697,7 +1323,7 @@ def neighbours(c):
                 yield dict(c, **{okey: o + d})
         if o is None and xs:
             yield dict(c, **{okey: len(xs) - 1})
-    for i in range(len(xs)):
+    for i in range(len(xs) if c.get("num") != "complex" else 0):
         v = dec(xs[i])
         yield dict(c, **{fld: xs[:i] + [0] + xs[i + 1:]})
         yield dict(c, **{fld: xs[:i] + [enc(-v)] + xs[i + 1:]})
